@@ -28,6 +28,7 @@ type PropDef struct {
 	Assumptions    []string
 	Explanation    string
 	Extra          func(r *propRun)
+	ServiceLoops   []string // loop keys that are intentionally unbounded service loops
 }
 
 func (d *PropDef) units(p *govc.Program) []Unit {
